@@ -127,7 +127,7 @@ void ring_history(pbt::Source& src) {
         unsigned nops = 0;
         while (src.more() && nops < 120) {
             ++nops;
-            size_t s = src.index(NS);
+            size_t s = src.weighted({5, 2, 1}); // mostly b0: long histories on one buffer wrap both cursors
             if (!m[s].exists) {
                 bool dflt = src.chance(48);
                 create(s, dflt, dflt ? 0 : (size_t)src.range(0, 9));
